@@ -181,6 +181,7 @@ impl Ctx {
                             if let Err(msg) = guard(|| f(i, n, &mut ev)) {
                                 ev.violate("panic", format!("panic in shard {}: {}", i, msg), J::s(msg.clone()));
                             }
+                            worker_done();
                             ev
                         })
                         .unwrap()
@@ -213,8 +214,138 @@ pub fn install_panic_hook() {
     }));
 }
 
+// ---------------------------------------------------------------------------------------------------------------------------
+// Non-termination monitor. "The stream ... then ends", "the call returns Err", "open returns Ok or Err": an operation that never
+// returns violates the statement as much as a wrong result, but cannot be observed from inside the stuck thread. Every worker
+// thread counts its guarded operations (one relaxed atomic increment per `guard` entry/exit); a monitor thread samples, per worker,
+// that counter together with the CPU TIME the worker thread itself has consumed (/proc/self/task/<tid>/stat, user+system ticks).
+// A worker that burns more than the budget of its OWN CPU time without starting or finishing a single guarded operation is stuck in
+// one operation. CPU time of the thread, not wall-clock time: a loaded machine makes the thread slower but does not make it consume
+// CPU seconds. Budgets: quick 240 CPU-seconds (the longest guarded operation of the quick tier takes < 10), thorough 3 hours
+// (one thorough operation builds a 4.4 GiB FST in ~16 minutes).
+pub struct WorkerSlot {
+    pub tid: u64,
+    pub events: std::sync::atomic::AtomicU64,
+    pub done: std::sync::atomic::AtomicBool,
+}
+static WORKERS: std::sync::Mutex<Vec<std::sync::Arc<WorkerSlot>>> = std::sync::Mutex::new(Vec::new());
+static RUN_INFO: std::sync::OnceLock<(String, String, u64, PathBuf)> = std::sync::OnceLock::new();
+pub static MAX_GAP_TICKS: std::sync::atomic::AtomicU64 = std::sync::atomic::AtomicU64::new(0);
+thread_local! {
+    static MY_SLOT: RefCell<Option<std::sync::Arc<WorkerSlot>>> = RefCell::new(None);
+}
+
+fn thread_cpu_ticks(tid: u64) -> Option<u64> {
+    let stat = std::fs::read_to_string(format!("/proc/self/task/{}/stat", tid)).ok()?;
+    let after = &stat[stat.rfind(')')? + 2..];
+    let f: Vec<&str> = after.split_whitespace().collect();
+    Some(f.get(11)?.parse::<u64>().ok()? + f.get(12)?.parse::<u64>().ok()?)
+}
+
+/// called once from main: remembers what to report, starts the monitor thread
+pub fn start_hang_monitor(id: &str, tier: &str, seed: u64, root: PathBuf) {
+    let _ = RUN_INFO.set((id.to_string(), tier.to_string(), seed, root));
+    let budget_ticks: u64 = std::env::var("VERIF_HANG_CPU_SECONDS").ok().and_then(|s| s.parse::<u64>().ok()).unwrap_or(if tier == "thorough" { 3 * 3600 } else { 240 }) * 100;
+    let _ = std::thread::Builder::new().name("hang-monitor".into()).spawn(move || {
+        // per worker: (events seen, cpu ticks when that value was first seen)
+        let mut seen: std::collections::HashMap<u64, (u64, u64)> = Default::default();
+        loop {
+            std::thread::sleep(std::time::Duration::from_millis(1500));
+            let workers: Vec<std::sync::Arc<WorkerSlot>> = WORKERS.lock().map(|w| w.clone()).unwrap_or_default();
+            for w in workers {
+                if w.done.load(std::sync::atomic::Ordering::Relaxed) {
+                    continue;
+                }
+                let ev = w.events.load(std::sync::atomic::Ordering::Relaxed);
+                let ticks = match thread_cpu_ticks(w.tid) {
+                    Some(t) => t,
+                    None => continue,
+                };
+                let e = seen.entry(w.tid).or_insert((ev, ticks));
+                if e.0 != ev {
+                    *e = (ev, ticks);
+                    continue;
+                }
+                let gap = ticks.saturating_sub(e.1);
+                MAX_GAP_TICKS.fetch_max(gap, std::sync::atomic::Ordering::Relaxed);
+                if gap > budget_ticks {
+                    report_hang(w.tid, ev, gap);
+                }
+            }
+        }
+    });
+}
+
+fn report_hang(tid: u64, events: u64, gap_ticks: u64) -> ! {
+    let (id, tier, seed, root) = RUN_INFO.get().cloned().unwrap_or(("C00".into(), "quick".into(), 1, PathBuf::from("/verif")));
+    let detail = format!(
+        "a judged operation does not return: worker thread {} has consumed {} seconds of its own CPU time inside ONE guarded operation (operation number {} of that thread) without finishing it; the run is deterministic, replaying tier={} seed={} reaches the same operation",
+        tid,
+        gap_ticks / 100,
+        events,
+        tier,
+        seed
+    );
+    let replays = root.join("replays");
+    let _ = std::fs::create_dir_all(&replays);
+    let path = replays.join(format!("{}-{}-{}-hang.json", id, tier, seed));
+    let j = J::obj(vec![("property_id", J::s(id.clone())), ("tier", J::s(tier.clone())), ("seed", J::U(seed)), ("signature", J::s("does-not-terminate")), ("detail", J::s(detail.clone())), ("case", J::Null)]);
+    let _ = std::fs::write(&path, j.to_string());
+    let evd = J::O(vec![
+        ("property_id".into(), J::s(id.clone())),
+        ("tier".into(), J::s(tier.clone())),
+        ("seed".into(), J::U(seed)),
+        ("level".into(), J::s("exploration")),
+        ("coverage".into(), J::O(vec![("evaluations".into(), J::U(events)), ("distinct_nontrivial".into(), J::U(0)), ("rule".into(), J::s("run aborted by the non-termination monitor; counts are those of the stuck worker thread only")), ("samples".into(), J::A(vec![J::s(detail.clone())]))])),
+        ("assumptions".into(), J::A(vec![])),
+        ("wall_s".into(), J::F(0.0)),
+        ("violations".into(), J::U(1)),
+        ("verdict".into(), J::s("violated")),
+    ]);
+    let _ = std::fs::create_dir_all(root.join("evidence"));
+    let _ = std::fs::write(root.join("evidence").join(format!("{}.json", id)), evd.to_string());
+    println!("VIOLATION property={} replay={}", id, path.display());
+    println!("  signature=does-not-terminate detail={}", detail);
+    std::process::exit(1);
+}
+
+fn guard_event() {
+    MY_SLOT.with(|s| {
+        let mut s = s.borrow_mut();
+        if s.is_none() {
+            let tid = std::fs::read_link("/proc/thread-self").ok().and_then(|p| p.file_name().and_then(|n| n.to_str().and_then(|n| n.parse::<u64>().ok()))).unwrap_or(0);
+            let slot = std::sync::Arc::new(WorkerSlot { tid, events: std::sync::atomic::AtomicU64::new(0), done: std::sync::atomic::AtomicBool::new(false) });
+            if tid != 0 {
+                if let Ok(mut w) = WORKERS.lock() {
+                    w.push(slot.clone());
+                }
+            }
+            *s = Some(slot);
+        }
+        if let Some(slot) = s.as_ref() {
+            slot.events.fetch_add(1, std::sync::atomic::Ordering::Relaxed);
+        }
+    });
+}
+
+/// a worker thread that is about to exit tells the monitor so (its tid may be recycled)
+pub fn worker_done() {
+    MY_SLOT.with(|s| {
+        if let Some(slot) = s.borrow().as_ref() {
+            slot.done.store(true, std::sync::atomic::Ordering::Relaxed);
+        }
+    });
+}
+
 /// run `f`, turning a panic into Err(message); quiet (the hook stores the message)
 pub fn guard<T, F: FnOnce() -> T>(f: F) -> Result<T, String> {
+    guard_event();
+    let r = guard_inner(f);
+    guard_event();
+    r
+}
+
+fn guard_inner<T, F: FnOnce() -> T>(f: F) -> Result<T, String> {
     match panic::catch_unwind(AssertUnwindSafe(f)) {
         Ok(v) => Ok(v),
         Err(_) => Err(LAST_PANIC.with(|p| p.borrow().clone())),
@@ -324,6 +455,7 @@ pub fn finish(ctx: &Ctx, ev: Ev, spec: Spec) -> i32 {
     if let Some(x) = spec.exhaustive {
         cov.push(("exhaustive".into(), J::Bool(x)));
     }
+    cov.push(("max_cpu_seconds_without_a_guard_event_on_any_worker".into(), J::F(MAX_GAP_TICKS.load(std::sync::atomic::Ordering::Relaxed) as f64 / 100.0)));
     cov.push(("observed".into(), J::O(ev.counters.iter().map(|(k, v)| (k.clone(), J::U(*v))).collect())));
     for (k, v) in &ev.notes {
         cov.push((k.clone(), v.clone()));
